@@ -139,8 +139,52 @@ PARAM_VALUES = ["1", "True", "'1'", "b1(1)", "Bits1(1)", "2", "'2'", "b2(2)", "N
                 "'a b'", "'a_b'", "-1", "'-1'", "1.0"]
 
 
+LEAFD_SRC = '''
+class LeafD( Component ):
+  def construct( s, a=8, b=1, c=2 ):
+    s.in_ = InPort( Bits8 )
+    s.out = OutPort( Bits8 )
+    KK = ( a*7 + b*3 + c ) % 256
+    @update
+    def up():
+      s.out @= s.in_ + KK
+'''
+
+
+@st.composite
+def default_arg_cases(draw):
+  """instances of one class with three defaulted construct() arguments, each supplying a different subset of them
+  (positionally, by keyword, or later through set_param); values come from a small pool that contains the defaults,
+  so that a parameter recorded with the wrong value (another argument's default, a dropped override) coincides with
+  the true parameters of a sibling"""
+  pool = [8, 1, 2, 3]
+  n = draw(st.integers(2, 4))
+  lines = ["class Top( Component ):", "  def construct( s ):", "    s.in_ = InPort( Bits8 )"]
+  insts, setp = [], []
+  for j in range(n):
+    a, b, c = (draw(st.sampled_from(pool)) for _ in range(3))
+    form = draw(st.sampled_from(["", "A", "A,B", "A,B,C", "b=B", "c=C", "A,c=C", "a=A,c=C", "b=B,c=C", "A,b=B", "A,B,c=C", "c=C,a=A"]))
+    true = {"a": a if ("A" in form) else 8, "b": b if ("B" in form) else 1, "c": c if ("C" in form) else 2}
+    ctor = "LeafD( " + form.replace("A", str(a)).replace("B", str(b)).replace("C", str(c)) + " )"
+    if draw(st.integers(0, 3)) == 0:
+      # override one argument afterwards, from the top: top.set_param( "top.cJ.construct", b=... )
+      positional = {t.strip().lower() for t in form.split(",") if t.strip() and "=" not in t}
+      arg = draw(st.sampled_from([x for x in ("a", "b", "c") if x not in positional] or ["c"]))
+      if arg not in positional:                  # (an argument given positionally cannot be overridden by keyword)
+        val = draw(st.sampled_from(pool))
+        setp.append([f"top.c{j}.construct", arg, val]); true[arg] = val
+    insts.append(["leafd", ctor, true["a"], true["b"], true["c"]])
+    lines += [f"    s.c{j} = {ctor}", f"    s.o{j} = OutPort( Bits8 )", f"    s.c{j}.in_ //= s.in_", f"    s.o{j} //= s.c{j}.out"]
+  src = "from pymtl3 import *\n" + LEAFD_SRC + "\n".join(lines) + "\n"
+  ins = [draw(st.integers(0, 255)) for _ in range(2)]
+  return {"kind": "B", "src": src, "n": n, "insts": [list(map(str, k)) for k in insts], "ins": ins, "as_list": False, "set_param": setp,
+          "expect_k": [(int(i[2]) * 7 + int(i[3]) * 3 + int(i[4])) % 256 for i in insts]}
+
+
 @st.composite
 def naming_cases(draw):
+  if draw(st.integers(0, 2)) == 0:
+    return draw(default_arg_cases())
   nleaf = draw(st.integers(1, 2))
   src = ["from pymtl3 import *\n"]
   bodies = ["s.in_", "(s.in_ ^ 1)"]
@@ -183,7 +227,7 @@ def naming_cases(draw):
   return {"src": "\n".join(src), "n": n, "insts": [list(map(str, k)) for k in insts], "ins": ins, "as_list": as_list}
 
 
-def judge_b(case):
+def judge_b(case, backends=("verilog", "yosys")):
   from vf.sv import parse_design, SVSyntaxError, SVUnsupportedError, SVElabError
   from pymtl3.passes.backends.verilog import VerilogTranslationPass
   from pymtl3.passes.backends.yosys import YosysTranslationPass
@@ -198,13 +242,21 @@ def judge_b(case):
   try:
     spec.loader.exec_module(mod)
     # PyMTL reference behaviour
-    top = mod.Top(); top.elaborate(); top.apply(DefaultPassGroup())
+    def build():
+      t_ = mod.Top()
+      for path_, arg, val in case.get("set_param", []): t_.set_param(path_, **{arg: val})
+      t_.elaborate()
+      return t_
+    top = build(); top.apply(DefaultPassGroup())
     expect = []
     for v in case["ins"]:
       top.in_ @= Bits(8, v); top.sim_eval_combinational()
       expect.append([int(getattr(top, f"o{j}")) for j in range(case["n"])])
+      if "expect_k" in case and expect[-1] != [(v + k) % 256 for k in case["expect_k"]]:
+        raise AssertionError(f"harness: default-argument family: PyMTL computes {expect[-1]} for in_={v}, constants {case['expect_k']}")
     for which, P in (("verilog", VerilogTranslationPass), ("yosys", YosysTranslationPass)):
-      t2 = mod.Top(); t2.elaborate(); t2.set_metadata(P.enable, True)
+      if which not in backends: continue
+      t2 = build(); t2.set_metadata(P.enable, True)
       try:
         t2.apply(P())
       except Exception as ex:
@@ -235,7 +287,9 @@ def judge_b(case):
               # what str() makes of the parameter values of a leaf instance (the module name is built from it)
               from pymtl3.datatypes import Bits, b1, b2, Bits1, Bits4, Bits8   # names used in PARAM_VALUES
               return (inst[1], str(eval(inst[2])), str(eval(inst[3])))
-            if case["insts"][bad[0]][0] == "factory":
+            if case["insts"][bad[0]][0] == "leafd":
+              kind = "instances_with_different_arguments_share_a_module"
+            elif case["insts"][bad[0]][0] == "factory":
               kind = "factory_classes_share_name"
             elif len({pstr(case["insts"][j2]) for j2 in shared if case["insts"][j2][0] == "leaf"}) == 1:
               kind = "param_values_share_str"          # e.g. 1 vs '1' vs b1(1): known finding
@@ -333,6 +387,8 @@ def run_shard(ctx):
     distinct = len({tuple(k) for k in case["insts"]}) >= 2
     if any(k[0] == "factory" for k in case["insts"]): ctx.label("factory_classes")
     if case.get("as_list"): ctx.label("instances_in_a_list")
+    if any(k[0] == "leafd" for k in case["insts"]): ctx.label("default_argument_family")
+    if case.get("set_param"): ctx.label("set_param_override")
     if v is None and distinct: ctx.nontriv(["B", case["insts"]])
     ctx.judge(case, v)
     if ctx.evaluations % 97 == 0: ctx.sample({"kind": "B", "instances": case["insts"]})
